@@ -32,6 +32,11 @@ type scope struct {
 	instances   map[instanceKey]any
 	instancesMu sync.RWMutex
 
+	// One mutex per scoped registration being constructed, so that concurrent
+	// requests for the same service wait for the first instead of building a second
+	creating   map[instanceKey]*sync.Mutex
+	creatingMu sync.Mutex
+
 	// Track disposable scoped instances
 	disposables   []Disposable
 	disposablesMu sync.Mutex
@@ -305,6 +310,30 @@ func (s *scope) Close() error {
 	return nil
 }
 
+// lockCreation serialises the construction of one scoped registration in this scope.
+// All descriptors of one registration (aliases, multiple returns, result fields)
+// share the lock, because one constructor call produces all of them.
+func (s *scope) lockCreation(descriptor *Descriptor) (unlock func()) {
+	key := descriptor.identity()
+	if len(descriptor.siblings) > 0 {
+		key = descriptor.siblings[0].identity()
+	}
+
+	s.creatingMu.Lock()
+	if s.creating == nil {
+		s.creating = make(map[instanceKey]*sync.Mutex)
+	}
+	m, ok := s.creating[key]
+	if !ok {
+		m = &sync.Mutex{}
+		s.creating[key] = m
+	}
+	s.creatingMu.Unlock()
+
+	m.Lock()
+	return m.Unlock
+}
+
 // getInstance retrieves a cached instance from this scope in a thread-safe manner.
 // Returns the instance and true if found, or nil and false if not cached.
 func (s *scope) getInstance(key instanceKey) (any, bool) {
@@ -429,6 +458,16 @@ func (s *scope) resolve(key instanceKey, descriptor *Descriptor) (any, error) {
 
 	case Scoped:
 		// Check for circular dependency only when creating new instance
+		if instance, ok := s.getInstance(key); ok {
+			return instance, nil
+		}
+
+		// A scope holds one instance per scoped registration: whoever comes second
+		// waits for the first construction and takes its result. Locks are only
+		// nested along dependency edges, which Build has verified to be acyclic.
+		unlock := s.lockCreation(descriptor)
+		defer unlock()
+
 		if instance, ok := s.getInstance(key); ok {
 			return instance, nil
 		}
